@@ -23,11 +23,12 @@ def _worker(conn, call):
             return
         if msg is None:
             return
-        for i, arg in msg:
-            conn.send(('start', i))
+        gen, chunk = msg
+        for i, arg in chunk:
+            conn.send(('start', i, gen))
             res = call(arg)
-            conn.send(('done', i, res))
-        conn.send(('idle',))
+            conn.send(('done', i, res, gen))
+        conn.send(('idle', gen))
 
 
 class Pool:
@@ -36,6 +37,7 @@ class Pool:
         self.ctx = mp.get_context('fork')
         self.n, self.call = n, call
         self.workers = []
+        self.gen = 0
         for _ in range(n):
             self._spawn()
 
@@ -68,7 +70,8 @@ class Pool:
         todo.reverse()
         idle = list(self.workers)
         busy = []
-        nleft = len(todo)
+        self.gen += 1
+        gen = self.gen
 
         def give(w):
             chunk = []
@@ -77,7 +80,7 @@ class Pool:
             w['chunk'] = chunk
             w['current'] = None
             w['t0'] = time.time()
-            w['conn'].send(chunk)
+            w['conn'].send((gen, chunk))
             busy.append(w)
 
         def fail(w, cls, what):
@@ -107,13 +110,13 @@ class Pool:
             return out
 
         stop_new = False
-        while nleft > 0:
+        while True:
             if deadline is not None and time.time() > deadline:
                 stop_new = True
             while idle and todo and not stop_new:
                 give(idle.pop())
             if not busy:
-                break       # deadline hit and nothing in flight
+                break       # all done, or deadline hit and nothing in flight
             ready = wait([w['conn'] for w in busy] +
                          [w['proc'].sentinel for w in busy], timeout=1.0)
             now = time.time()
@@ -122,6 +125,8 @@ class Pool:
                     try:
                         while w['conn'].poll():
                             msg = w['conn'].recv()
+                            if msg[-1] != gen:
+                                continue        # stale (earlier imap call)
                             if msg[0] == 'start':
                                 w['current'] = msg[1]
                                 w['t0'] = now
@@ -130,7 +135,6 @@ class Pool:
                                               if c[0] != msg[1]]
                                 w['current'] = None
                                 w['t0'] = now
-                                nleft -= 1
                                 yield msg[1], msg[2]
                             elif msg[0] == 'idle':
                                 busy.remove(w)
@@ -142,7 +146,6 @@ class Pool:
                                    f'worker process died (exit code {code}) '
                                    'while running this case')
                         if out:
-                            nleft -= 1
                             yield out
                         continue
                 if w in busy and not w['proc'].is_alive():
@@ -151,7 +154,6 @@ class Pool:
                                f'worker process died (exit code {code}) '
                                'while running this case')
                     if out:
-                        nleft -= 1
                         yield out
                 elif w in busy and case_timeout and w['t0'] and \
                         now - w['t0'] > case_timeout:
@@ -159,5 +161,4 @@ class Pool:
                                f'case did not finish within {case_timeout} s '
                                '(hang or non-terminating loop)')
                     if out:
-                        nleft -= 1
                         yield out
